@@ -96,7 +96,10 @@ Definition dec_str (bs : list N) : option (option str * list N) :=
   | Some (code, len, r) =>
     if code =? 7 then
       if len =? 0 then Some (None, r)
-      else match take (Z.to_nat len) r with Some (x, r') => Some (Some x, r') | None => None end
+      else match take (Z.to_nat len) r with
+           | Some (x, r') => if utf8_valid x then Some (Some x, r') else None
+           | None => None
+           end
     else None
   | None => None
   end.
